@@ -17,6 +17,8 @@ Clauses ==
   (IF Rejected /\ O.x_on_disk THEN {IF follows /\ ModelOut.x_on_disk THEN "C09:rejected_block_written_to_the_store_by_a_concurrent_flush_of_the_miner_thread"
                                     ELSE "C09:rejected_block_in_the_store"} ELSE {})
   \cup (IF Rejected /\ O.x_served THEN {"C09:rejected_block_in_chain_state"} ELSE {})
+  \cup (IF Rejected /\ MinerOn /\ follows /\ net.pc = "done" /\ net.quiet /\ ~O.b_served
+        THEN {"C09:chain_state_held_before_a_rejected_block_is_not_left_as_it_was"} ELSE {})
   \cup (IF XValidated /\ XValid /\ ~O.x_on_disk THEN {"C09:accepted_block_not_written_to_the_store"} ELSE {})
   \cup (IF MinerOn /\ ~O.b_on_disk THEN {IF follows /\ ~ModelOut.b_on_disk THEN "C12:found_block_dropped_from_the_write_buffer_by_a_concurrent_rejection"
                                          ELSE "C12:found_block_not_written_to_store"} ELSE {})
@@ -24,7 +26,7 @@ Clauses ==
   \cup (IF Tr.errors # << >> THEN {"C12:handling_a_found_block_or_a_delivery_raised_under_a_two_thread_schedule"} ELSE {})
 TInit == /\ tid \in 1..Len(Traces) /\ l = 1 /\ done = FALSE /\ follows = TRUE
          /\ served = {G} /\ lastValid = {G} /\ buffer = << >> /\ disk = {G} /\ bcast = {}
-         /\ net = [pc |-> "N1", prior |-> {}, changed |-> {}, tmp |-> {}] /\ miner = [pc |-> IF MinerOn THEN "M1" ELSE "done", snap |-> {}]
+         /\ net = [pc |-> "N1", prior |-> {}, changed |-> {}, tmp |-> {}, quiet |-> FALSE] /\ miner = [pc |-> IF MinerOn THEN "M1" ELSE "done", snap |-> {}]
 TNext ==
   /\ ~done /\ UNCHANGED tid
   /\ IF l > Len(Tr.hist) \/ ~follows
